@@ -137,8 +137,8 @@ def scenarios(ctx):
                        lose_kinds=('done', 'lost')))
         out.append(Scn('pubsub-%s' % mode, profile='pubsub', mode=mode, init=CONNECTED,
                        reconnects=[(True, 0, 4)],
-                       budgets=dict(common, pub=2, sub=1, unsub=0 if q else 1, ack=1, raw=0 if q else 1),
-                       pub_qos=(1, 2) if q else (0, 1, 2), lose_kinds=('lost',)))
+                       budgets=dict(common, pub=2, sub=1, unsub=0 if q else 1, ack=1, raw=0 if q else 1, inpub=1),
+                       pub_qos=(1, 2) if q else (0, 1, 2), lose_kinds=('lost',), inpubs=((2, False, False, 9, 'short'),)))
         out.append(Scn('pub-ka-%s' % mode, profile='pub', mode=mode,
                        init=(('connect', 0, True, 3, 4), ('connack', 0, 0, False)), reconnects=[(True, 0, 4)],
                        budgets=dict(pub=2 if q else 3, ack=1 if q else 2, tick=3, lose=1, disconnect=1, rebuild=1, connect=1, connack=1),
